@@ -57,7 +57,7 @@ def viewOf (lvl : Level) (h : H) (t : List Obs) : List Event := t.filterMap (evO
 
 /-- states; `u` = the user function ran, `r` = it returned normally, `f` = the call ended in a fault -/
 inductive Q where
-  | start | pre | called | ran | returned | retDoc | retStr
+  | start | pre | called | ran | returned | redirected | retDoc (r : Bool) | retStr (r : Bool)
   | excObj (u r : Bool) | excDoc (u r : Bool) | excStr (u r : Bool)
   | done (u r f : Bool)
   | reject
@@ -71,10 +71,13 @@ def Q.step : Q → Sym → Q
   | .called, .ev .exceptionObject => .excObj false false  -- a method_call listener raised
   | .ran, .ev .returnObject => .returned
   | .ran, .ev .exceptionObject => .excObj true false      -- the function raised
-  | .returned, .ev .returnDocument => .retDoc
+  | .returned, .ev .returnDocument => .retDoc true
+  | .ran, .ev .redirect => .redirected                    -- the function raised a Redirect: not a fault
+  | .redirected, .ev .returnDocument => .retDoc false
+  | .ran, .ev .redirectException => .excObj true false    -- do_redirect() raised: announced by this event instead
   | .returned, .ev .exceptionObject => .excObj true true  -- a method_return_object listener raised / unserialisable
-  | .retDoc, .ev .returnString => .retStr
-  | .retStr, .ev .closed => .done true true false
+  | .retDoc r, .ev .returnString => .retStr r
+  | .retStr r, .ev .closed => .done true r false
   | .excObj u r, .ev .exceptionDocument => .excDoc u r
   | .excDoc u r, .ev .exceptionString => .excStr u r
   | .excStr u r, .ev .closed => .done u r true
@@ -115,20 +118,22 @@ def clReturnObject (t : List Sym) (r : Bool) : Bool :=
 
 /-- method_exception_object exactly when the call ends in a fault (`f`), at most once -/
 def clExceptionObject (t : List Sym) (f : Bool) : Bool :=
-  (t.contains (.ev .exceptionObject) == f) && decide (t.count (.ev .exceptionObject) ≤ 1)
+  ((t.contains (.ev .exceptionObject) || t.contains (.ev .redirectException)) == f)
+  && decide (t.count (.ev .exceptionObject) + t.count (.ev .redirectException) ≤ 1)
+  && (!t.contains (.ev .redirectException) || onlyAfter .user (.ev .redirectException) t)
 
 /-- followed by the matching document and string events, in that order, then closed; none of the
     other family -/
 def clFollowedBy (t : List Sym) (f : Bool) : Bool :=
   if f then
-    fromFirst (.ev .exceptionObject) t
-        == [.ev .exceptionObject, .ev .exceptionDocument, .ev .exceptionString, .ev .closed]
+    (let a := if t.contains (.ev .redirectException) then Sym.ev .redirectException else .ev .exceptionObject
+     fromFirst a t == [a, .ev .exceptionDocument, .ev .exceptionString, .ev .closed])
       && !t.contains (.ev .returnDocument) && !t.contains (.ev .returnString)
   else
-    fromFirst (.ev .returnObject) t
-        == [.ev .returnObject, .ev .returnDocument, .ev .returnString, .ev .closed]
+    (let a := if t.contains (.ev .redirect) then Sym.ev .redirect else .ev .returnObject
+     fromFirst a t == [a, .ev .returnDocument, .ev .returnString, .ev .closed])
       && !t.contains (.ev .exceptionDocument) && !t.contains (.ev .exceptionString)
-      && !t.contains (.ev .exceptionObject)
+      && !t.contains (.ev .exceptionObject) && !t.contains (.ev .redirectException)
 
 def clauses (t : List Sym) (u r f : Bool) : Bool :=
   clCreatedClosed t && clUser t u && clReturnObject t r && clExceptionObject t f && clFollowedBy t f
@@ -151,10 +156,11 @@ def truth (inj : Inj) (co ro : Option ExcKind) : Truth :=
   let callFail := !preFail && co.isSome
   let dispatchFail := !preFail && !callFail && inj.stage = .dispatch
   let userRan := !preFail && !callFail && !dispatchFail
-  let userFail := userRan && inj.stage = .user
-  let returned := userRan && !userFail
+  let redirected := userRan && inj.stage = .redirect
+  let userFail := userRan && (inj.stage = .user || inj.stage = .redirectFail)
+  let returned := userRan && !userFail && !redirected
   let retFail := returned && ro.isSome
-  let serFail := returned && !retFail && inj.stage = .serialize
+  let serFail := returned && !retFail && (inj.stage = .serialize || inj.stage = .genBody)
   ⟨userRan, returned, preFail || callFail || dispatchFail || userFail || retFail || serFail, serFail⟩
 
 /-! ### one row of the table -/
@@ -199,11 +205,11 @@ def rowOk (F : Facts14) (x : Row) : Bool :=
 
 def allEvent : List Event :=
   [.created, .call, .returnObject, .exceptionObject, .returnDocument, .exceptionDocument, .returnString,
-   .exceptionString, .closed, .beforeDeserialize, .afterDeserialize, .beforeSerialize, .afterSerialize, .serialize,
+   .exceptionString, .closed, .beforeDeserialize, .afterDeserialize, .beforeSerialize, .afterSerialize, .serialize, .redirect, .redirectException, .wsdl, .wsdlException,
    .wsgiCall, .wsgiReturn, .wsgiException, .wsgiClose, .other]
 def allSym : List Sym := .user :: allEvent.map .ev
 def allTransport : List Transport := [.serverBase, .wsgi]
-def allStage : List Stage := [.none, .refuse, .createInDoc, .decompose, .genContexts, .deserialize, .dispatch, .user, .serialize]
+def allStage : List Stage := [.none, .refuse, .createInDoc, .decompose, .genContexts, .deserialize, .dispatch, .user, .redirect, .redirectFail, .genBody, .serialize]
 def allKind : List ExcKind := [.fault, .exc]
 def allOptKind : List (Option ExcKind) := [none, some .fault, some .exc]
 def allInj : List Inj :=
@@ -226,7 +232,7 @@ def lang : Nat → Q → List (List Sym × Q)
 def Q.rank : Q → Nat
   | .start => 9 | .pre => 8 | .called => 7 | .ran => 6 | .returned => 5
   | .excObj _ _ => 3 | .excDoc _ _ => 2 | .excStr _ _ => 1
-  | .retDoc => 2 | .retStr => 1
+  | .redirected => 5 | .retDoc _ => 2 | .retStr _ => 1
   | .done _ _ _ => 0 | .reject => 0
 
 end SpyneModel.Events
